@@ -29,7 +29,7 @@ async def settle(turns=400):
         await asyncio.sleep(0)
 
 
-async def scenario(burst, hold_at, idlers, examine, end, b_selects=True, done_while_held=False):
+async def scenario(burst, hold_at, idlers, examine, end, b_selects=True, done_while_held=False, prelude=()):
     """burst: tuple of change keys; hold_at: index in the burst before which the first idler's transport is blocked
     (None = never), released after the burst; end: b'DONE' or another line"""
     errors = []
@@ -47,6 +47,11 @@ async def scenario(burst, hold_at, idlers, examine, end, b_selects=True, done_wh
         r = await c.cmd(b'FETCH 1:* (UID FLAGS)')
         for u in r['untagged']:
             v.apply(u, 'listing')
+        for line in prelude:
+            # commands right before IDLE, some of them refused (NO): whatever they leave behind must not delay a push
+            r = await c.cmd(line)
+            for u in r['untagged']:
+                v.apply(u, 'prelude')
         ids.append((c, v))
     tags = []
     for c, v in ids:
@@ -180,6 +185,12 @@ def bounded_idle(label):
                 for n_id in (1, 2):
                     items.append((burst, None, n_id, examine, b'DONE', False))
                     items.append((burst, 0, n_id, examine, b'DONE', False))
+        # a refused or failing non-UID command right before IDLE
+        for prelude in ((b'STORE 1 +FLAGS (\\Seen)',), (b'COPY 1 Nowhere',), (b'FETCH 1 (BODY.PEEK[1.2.3]<5.1>)',),
+                        (b'SEARCH CHARSET x-nope SUBJECT x',), (b'STORE 9 +FLAGS (\\Seen)', b'STORE 1 FLAGS (\\Bogus')):
+            for ch in keys:
+                for examine in (False, True):
+                    items.append(((ch,), None, 1, examine, b'DONE', True, False, prelude))
         # DONE and a change arrive within a few event-loop turns of each other, in both orders
         for ch in keys:
             for order in ('done-first', 'change-first'):
@@ -199,9 +210,41 @@ def bounded_idle(label):
                     res.fail(f'{label}/{kind}', dict(burst=list(args[0]), transport_held_before_change=args[1],
                                                      idlers=args[2], examine=args[3], end=args[4].decode(),
                                                      changer_has_inbox_selected=(args[5] if len(args) > 5 else True),
-                                                     done_sent_while_held=(args[6] if len(args) > 6 else False)),
+                                                     done_sent_while_held=(args[6] if len(args) > 6 else False),
+                                                     commands_before_idle=[x.decode() for x in (args[7] if len(args) > 7 else ())]),
                              errs[:3])
                 elif len(res.samples) < 2:
                     res.samples.append(dict(burst=list(args[0]), held_before=args[1], result='delivered'))
+        return res
+    return fn
+
+
+def bounded_idle_races(label):
+    """the part of the IDLE exploration that matters for C01: a change and DONE close together (both orders, 0..11 loop
+    turns apart) and DONE while the transport is blocked; afterwards NOOP + FETCH 1:* must be labelled in the numbering
+    the client's model holds (a batch that was committed server-side but never sent breaks exactly that)"""
+    from pyvc.prop import BoundedResult
+
+    def fn(tier, seed):
+        res = BoundedResult()
+        keys = list(CHANGES)
+        items = []
+        for ch in keys:
+            for order in ('done-first', 'change-first'):
+                for turns in range(0, 12 if tier == 'quick' else 24):
+                    items.append(((ch,), ('race', order, turns), 1, False, b'DONE', True, True))
+        for ln in (1, 2):
+            for burst in itertools.product(keys, repeat=ln):
+                for hold_at in range(0, ln):
+                    items.append((burst, hold_at, 1, False, b'DONE', True, True))
+        with mp.get_context('fork').Pool(16) as pool:
+            for args, errs, sig in pool.imap_unordered(_worker, items, chunksize=4):
+                res.evaluations += 1
+                res.distinct.add(sig)
+                if errs:
+                    res.fail(f'{label}/client_view_consistent_after_idle',
+                             dict(burst=list(args[0]), transport_held_before_change_or_race=args[1], end=args[4].decode()), errs[:3])
+                elif len(res.samples) < 2:
+                    res.samples.append(dict(burst=list(args[0]), race=args[1], result='consistent'))
         return res
     return fn
